@@ -451,17 +451,17 @@ def parentForm (c : Ctx) (l : Loc) : Option Loc :=
 
 /-- Does `child` (an `input`) count as a checked radio of group `name` (attribute scan of
     `match_indeterminate`, in attribute order with its early exit). -/
-def radioCheckedScan (name : Option NVal) : List Attr → Bool → Bool → Bool → Bool
+def radioCheckedScan (isXml : Bool) (name : Option NVal) : List Attr → Bool → Bool → Bool → Bool
   | [], _, _, _ => false
   | a :: rest, isRadio, check, hasName =>
-    let k := lower a.key
+    let k := if !isXml then lower a.key else a.key
     let v := normalizeValue a.val
     let (isRadio, check, hasName) :=
       if k == "type".toStr && (match v with | .str s => lower s == "radio".toStr | .list _ => false) then (true, check, hasName)
       else if k == "name".toStr && some v == name then (isRadio, check, true)
       else if k == "checked".toStr then (isRadio, true, hasName)
       else (isRadio, check, hasName)
-    if isRadio && check && hasName then true else radioCheckedScan name rest isRadio check hasName
+    if isRadio && check && hasName then true else radioCheckedScan isXml name rest isRadio check hasName
 
 /-- `match_indeterminate` without its memo table. -/
 def matchIndeterminate (c : Ctx) (l : Loc) : Bool :=
@@ -477,7 +477,7 @@ def matchIndeterminate (c : Ctx) (l : Loc) : Bool :=
         else match ch.elem? with
           | none => false
           | some ce =>
-            c.tagName ce == "input".toStr && radioCheckedScan name ce.attrs false false false &&
+            c.tagName ce == "input".toStr && radioCheckedScan c.isXml name ce.attrs false false false &&
               (match parentForm c ch with
                | some f => f.same form
                | none => false)
